@@ -335,7 +335,7 @@ IdleTxn == [pc |-> "idle", c |-> None, setup |-> FALSE,
             fired |-> EmptyFn,           \* (observation) trigger calls made by the last Apply: trigger -> sequence
             replay |-> FALSE,            \* the buffers were handed in by Replay / Restore
             runs |-> {},                 \* runs of value-less rows inserted by this transaction (restore of filler)
-            sn |-> [nb |-> 0, blocks |-> <<>>, lo |-> <<>>],  \* snapshot in progress: blocks announced, blocks read
+            sn |-> [nb |-> 0, blocks |-> <<>>, lo |-> <<>>, log |-> <<>>],  \* snapshot in progress: blocks announced, blocks read, its recorded log
             rs |-> [file |-> "none", pos |-> 0, trunc |-> FALSE]] \* restore in progress: file, items consumed
 
 Init == /\ st = [c \in Colls |-> EmptyStore]
@@ -675,16 +675,18 @@ SnapBlock(t) ==
              /\ txn' = [txn EXCEPT ![t].sn.blocks = Append(@, BlockImage(S, b, rows))]
   /\ UNCHANGED <<st, used, files>>
 
+\* the recorder is detached: what it has recorded belongs to this snapshot (each snapshot has a temporary file of its own), and
+\* from here on another snapshot may install its recorder - also before this one has copied its log and returned
 SnapClose(t) ==
   /\ txn[t].pc = "snap.blocks" /\ Len(txn[t].sn.blocks) = txn[t].sn.nb
-  /\ txn' = [txn EXCEPT ![t].pc = "snap.copy"]
-  /\ st' = [st EXCEPT ![txn[t].c].rec = [@ EXCEPT !.open = FALSE]]
+  /\ txn' = [txn EXCEPT ![t].pc = "snap.copy", ![t].sn.log = Coll(t).rec.log]
+  /\ st' = [st EXCEPT ![txn[t].c].rec = [open |-> FALSE, log |-> <<>>]]
   /\ UNCHANGED <<used, files, dev>>
 
 SnapCopy(t, name) ==
   /\ txn[t].pc = "snap.copy"
   /\ files' = [f \in DOMAIN files \cup {name} |->
-                  IF f = name THEN [nb |-> txn[t].sn.nb, blocks |-> txn[t].sn.blocks, log |-> Coll(t).rec.log,
+                  IF f = name THEN [nb |-> txn[t].sn.nb, blocks |-> txn[t].sn.blocks, log |-> txn[t].sn.log,
                                     lo |-> txn[t].sn.lo, hi |-> [i \in DOMAIN Coll(t).ap |-> Len(Coll(t).ap[i])]]
                   ELSE files[f]]
   /\ txn' = [txn EXCEPT ![t] = [IdleTxn EXCEPT !.pc = "done", !.c = txn[t].c]]
@@ -693,7 +695,8 @@ SnapCopy(t, name) ==
 \* the destination failed: Snapshot returns the error; the recorder must be detached again
 SnapFail(t) ==
   /\ txn[t].pc \in {"snap.open", "snap.blocks", "snap.copy"}
-  /\ st' = [st EXCEPT ![txn[t].c].rec = [open |-> FALSE, log |-> <<>>]]
+  \* (in the copy stage its recorder is detached already: the one installed now, if any, belongs to another snapshot)
+  /\ st' = IF txn[t].pc = "snap.copy" THEN st ELSE [st EXCEPT ![txn[t].c].rec = [open |-> FALSE, log |-> <<>>]]
   /\ txn' = [txn EXCEPT ![t] = [IdleTxn EXCEPT !.pc = "done", !.c = txn[t].c]]
   /\ UNCHANGED <<used, files, dev>>
 
